@@ -1364,3 +1364,26 @@ _NEW_BULK_API = '''
     def _start(self) -> None:'''
 mut('c14-bulk-entry-point', 'C14', ['C14.6'], S, "\n    def _start(self) -> None:", _NEW_BULK_API, 'events enter the history through a bulk entry point before they are enqueued')
 mut('c15-bulk-entry-point', 'C15', ['C15.8'], S, "\n    def _start(self) -> None:", _NEW_BULK_API, 'echo')
+
+# ---- round 5 obligations
+mut('c15-start-only-if-never-started', 'C15', ['C15.9'], S,
+    "        self._start()\n        assert self._on_idle and self.event_queue, 'EventBus._start() must be called before wait_until_idle() is reached'",
+    "        if self.event_queue is None:\n            self._start()\n        assert self._on_idle and self.event_queue, 'EventBus._start() must be called before wait_until_idle() is reached'",
+    'wait_until_idle() no longer restarts a run loop that ended without stop()')
+mut('c14-start-flag-without-task', 'C14', ['C14.7'], S,
+    "                self._runloop_task = loop.create_task(self._run_loop(), name=f'{self}._run_loop')\n                self._is_running = True",
+    "                if self._runloop_task is None:\n                    self._runloop_task = loop.create_task(self._run_loop(), name=f'{self}._run_loop')\n                self._is_running = True",
+    'a bus restarted after stop() is flagged running but nobody consumes its queue')
+mut('c01-recursion-count-ignores-completed', 'C01', ['C01.11'], S,
+    "            if result.status in ('pending', 'started', 'completed'):\n                # This handler processed the parent event, increment depth",
+    "            if result.status in ('pending', 'started'):\n                # This handler processed the parent event, increment depth",
+    'levels whose handler already finished are not counted: unbounded handler recursion through completed ancestors')
+mut('c01-recursion-count-counts-errors', 'C01', ['C01.11'], S,
+    "            if result.status in ('pending', 'started', 'completed'):\n                # This handler processed the parent event, increment depth",
+    "            if result.status:\n                # This handler processed the parent event, increment depth",
+    'levels where the handler failed are counted too: a handler is refused delivery after two failed ancestors')
+mut('c19-inner-arm-replaces', 'C19', ['C19.6'], H,
+    "            async with asyncio.timeout(timeout):\n                return await func(*args, **kwargs)  # type: ignore[reportCallIssue]",
+    "            try:\n                async with asyncio.timeout(timeout):\n                    return await func(*args, **kwargs)  # type: ignore[reportCallIssue]\n            except TimeoutError as te:\n                raise TimeoutError(f'{func.__name__} timed out') from te",
+    'a TimeoutError raised by the function itself is replaced before retry_on is consulted')
+MUTANTS[:] = [m for m in MUTANTS if m is not None]
